@@ -362,6 +362,12 @@ static Json::Value answer(const Json::Value& q) {
         ad.scheduleDropInRemove(op["tag"].asString());
         st["sched"] = true;
       }
+      if (op.get("defer", false).asBool()) {
+        // no main-loop tick yet: the request stays queued behind the adaptor's mutex
+        st["deferred"] = true;
+        steps.append(st);
+        continue;
+      }
       ad.updateDropIns();
       Json::Value rs(Json::arrayValue);
       for (auto& r : ad.results) {
